@@ -44,6 +44,22 @@ func (node *tagCycleNode) Execute(ctx *ExecutionContext, writer TemplateWriter) 
 			return err
 		}
 
+		// An argument can denote a cycle value itself ({% cycle x as x %}); store
+		// what it currently holds instead of nesting cycle values into each other.
+		for depth := 0; depth < len(t.node.args)+1; depth++ {
+			inner, isCycleValue := val.Interface().(*tagCycleValue)
+			if !isCycleValue {
+				break
+			}
+			val = inner.value
+			if val == nil {
+				val = AsValue(nil)
+			}
+		}
+		if _, stillCycleValue := val.Interface().(*tagCycleValue); stillCycleValue {
+			val = AsValue(nil)
+		}
+
 		t.value = val
 
 		if !t.node.silent {
